@@ -4,6 +4,7 @@ import (
 	"encoding/json"
 	"fmt"
 	"gbverif/cmpchain"
+	"go/token"
 	"go/types"
 	"golang.org/x/tools/go/ssa"
 	"os"
@@ -424,5 +425,34 @@ func init() {
 		b, _ := json.MarshalIndent(c.condSigs(callPkgs), "", " ")
 		fmt.Println("BASELINE-BEGIN")
 		fmt.Println(string(b))
+	}
+}
+
+func init() {
+	debugHooks["divscan"] = func(p *ir.Program) {
+		for _, fn := range p.Funcs {
+			if !p.InModule(fn) || fn.Blocks == nil {
+				continue
+			}
+			file := p.Pos(ir.Outer(fn).Pos())
+			if strings.Contains(file, ".pb.go") || strings.HasPrefix(file, "cmd/") || strings.HasPrefix(file, "tools/") {
+				continue
+			}
+			for _, b := range fn.Blocks {
+				for _, in := range b.Instrs {
+					bo, ok := in.(*ssa.BinOp)
+					if !ok || (bo.Op != token.QUO && bo.Op != token.REM) {
+						continue
+					}
+					if _, isK := bo.Y.(*ssa.Const); isK {
+						continue
+					}
+					if bt, ok := bo.Type().Underlying().(*types.Basic); ok && bt.Info()&types.IsInteger == 0 {
+						continue
+					}
+					fmt.Printf("%s %s: %s\n", p.InstrPos(bo), ir.FuncKey(fn), describeVal(bo, 0))
+				}
+			}
+		}
 	}
 }
